@@ -24,7 +24,7 @@ open Spec
 
 /-- every guard flag, both fix flags, both refusals and the signal numbers are as the proofs need -/
 theorem cfg_good : cfg.Good := by
-  refine ⟨⟨?_, ?_⟩, ?_, ?_, ?_, ?_, ?_, ?_, ?_, ?_, ?_, ?_, ?_, ?_⟩ <;> decide
+  refine ⟨⟨?_, ?_⟩, ?_, ?_, ?_, ?_, ?_, ?_, ?_, ?_, ?_, ?_, ?_, ?_, ?_⟩ <;> decide
 
 /-- **C01_all_guarded.** Every signal method and every setter named by the property calls
     `_raise_if_pid_reused()` before its OS effect. -/
@@ -72,7 +72,8 @@ theorem C01_sendSignal_refuses_zero (s : St) (i : Nat) (o : PObj) (m : SigMethod
 /-- **C01_exact_args.** In *any* state, a call adds at most one effect; it is attributed to the object the
     call was made on, carries exactly that object's PID, and exactly the signal / values asked for
     (`ArgOK`: the documented signal of suspend/resume/terminate/kill, the number given to send_signal,
-    the nice value, (ioclass, value or 0), (resource, soft, hard), the set of CPUs). -/
+    the nice value, (ioclass, value or 0), (resource, soft, hard), the set of CPUs — for the empty sequence
+    every CPU a `cpu_set_t` holds, 0 … CPU_SETSIZE-1). -/
 theorem C01_exact_args (s : St) (call : Call) :
     (step cfg s (.c call)).1.log = s.log ∨
     ∃ e i o, (step cfg s (.c call)).1.log = e :: s.log ∧ call.target = some i ∧ s.ps.objs[i]? = some o
@@ -98,7 +99,7 @@ theorem C01_exact_args (s : St) (call : Call) :
             simp [ArgOK, sigOf_good cfg_good]
           · obtain ⟨x, a, _, ha, rfl, _⟩ := setterM_eff_shape _ _ _ _ _ _ heff
             simp only [Call.target, Option.some.injEq] at htg
-            exact ⟨rfl, setterArgs_argOK _ _ _ _ _ _ ha⟩
+            exact ⟨rfl, setterArgs_argOK _ cfg_good.affinityAll _ _ _ _ _ ha⟩
 
 /-- **C01_recycled_raises_NSP.** After any history: when the incarnation an object was built for is no
     longer in the process table (it ended; its PID may be free, or live again under another process, or
@@ -173,10 +174,10 @@ def goodCfg : Cfg :=
     guardSignal := true, guardNice := true, guardIonice := true, guardRlimit := true,
     guardAffinity := true, guardPpid := true, pid0Refused := true, negRejected := true,
     rlimitPid0Refused := true, sigStop := 19, sigCont := 18, sigTerm := 15, sigKill := 9,
-    ioNoValue := [0, 3] }
+    ioNoValue := [0, 3], affinityAll := 1024 }
 
 example : goodCfg.Good := by
-  refine ⟨⟨?_, ?_⟩, ?_, ?_, ?_, ?_, ?_, ?_, ?_, ?_, ?_, ?_, ?_, ?_⟩ <;> decide
+  refine ⟨⟨?_, ?_⟩, ?_, ?_, ?_, ?_, ?_, ?_, ?_, ?_, ?_, ?_, ?_, ?_, ?_⟩ <;> decide
 
 /-- lead L1 as a history: PID 7 ends and is reaped, is_running() notices (`_gone`), PID 7 is taken by
     another process, then kill() -/
